@@ -7,7 +7,7 @@
 (* function, mixture, model and permeate mode.  A large flux exhausts the   *)
 (* feed within the run, which exercises the guard and the Raise action.     *)
 (***************************************************************************)
-EXTENDS Integers, Sequences, TLC, Q
+EXTENDS Integers, Sequences, TLC, Q, Json, IOUtils
 CONSTANTS Dev, Guarded
 VARIABLES run, time, m, x, T, J, y, P, Qe, Qc, pc
 
@@ -19,6 +19,12 @@ Runs == {r \in [N: {1, 2, 4}, dt: {QRat(1, 2)}, A: {QLit("2")}, m0: {QLit("8")},
            r.iso => ~r.hasProg}
 Envs == [J1: {QRat(1, 8), QLit("3")}, J2: {QRat(1, 2), QLit("7")}, h1: {QLit("2")}, h2: {QLit("1")}, massratio: {QLit("3")},
          cp1: {QLit("1")}, cp2: {QLit("3")}, prog: {QLit("310")}, qc: {QLit("5")}, P: {"pa"}, Pnext: {"pb"}]
+
+\* leg C: the run shapes TLC enumerates are written out; the recorded runs of the real models must cover every one of them
+Shapes == {[N |-> r.N, iso |-> r.iso, ideal |-> r.ideal, hasTperm |-> r.hasTperm, hasProg |-> r.hasProg] : r \in Runs}
+RECURSIVE SetToSeqR(_)
+SetToSeqR(S) == IF S = {} THEN <<>> ELSE LET z == CHOOSE z \in S : TRUE IN <<z>> \o SetToSeqR(S \ {z})
+ASSUME IF "SHAPE_FILE" \in DOMAIN IOEnv THEN ndJsonSerialize(IOEnv.SHAPE_FILE, SetToSeqR(Shapes)) ELSE TRUE
 
 Init == /\ pc = "init" /\ run = <<>> /\ time = <<>> /\ m = <<>> /\ x = <<>> /\ T = <<>> /\ J = <<>> /\ y = <<>>
         /\ P = <<>> /\ Qe = <<>> /\ Qc = <<>>
